@@ -370,10 +370,100 @@ def check_c10(ctx):
                                                                       "after a documented overflow panic in destroy the entity may be fully present or fully absent; the model adopts whichever holds"])
 
 
+C11_RULE = ("(1) exhaustive pair matrix: outer x inner over {find_borrow(&), find_borrow(&mut), iter_borrow(&), iter_borrow(&mut), Borrow::component, Borrow::component_mut, borrow_slice, borrow_slice_mut, clone} x {same column, other column} x {same archetype, other archetype sharing the component type} x {same entity, other entity, missing entity / empty archetype}, for every ordered pair of WMix archetypes sharing a component type, on 8 world populations (full, with removals at the first/last/middle position, with empty archetypes); each nesting runs on a fresh world through a shared &World under catch_unwind and must panic iff the model (one reader/writer cell per (archetype, column); a borrow is taken only if the access executes) reports a conflict, both accesses must observe the model's stamps, and afterwards every column must be mutably borrowable again; "
+            "(2) generated sequences of 1..5 nestings of depth 1..3 on generated populations (state carries over, so accesses after a caught conflict are checked); "
+            "non-trivial = the pair conflicts (must panic) or is a closest non-conflicting neighbour (same archetype other column, other archetype same column type, shared/shared), or (random part) a nesting of depth >= 2 or a sequence with a conflict; distinct = combination tuple x population, resp. hash of the sequence")
+
+
+def check_c11(ctx):
+    bins = {"chk": build_harness("chk"), "rel": build_harness("rel")}
+    files = sorted(glob.glob(os.path.join(VERIF, "replays", "C11", "*.nest")))
+    if ctx.replay:
+        files.append(ctx.replay)
+    jobs = [((f, n), [b, "b-replay", f]) for f in files for n, b in bins.items()]
+    for (f, n), (rc, out) in sorted(run_many(jobs, 300).items()):
+        if rc == 1:
+            for line in out.splitlines():
+                if line.startswith("FAIL "):
+                    d = parse_line(line)
+                    report_failure(ctx, d.get("sig", "?"), f, "[%s] %s" % (n, d.get("msg", "")))
+        elif rc != 0:
+            report_failure(ctx, "crash", f, "[%s] b-replay died with status %s: %s" % (n, rc, out[-300:]))
+    if ctx.replay:
+        write_evidence(ctx, "exploration", {"evaluations": len(files), "distinct_nontrivial": 2, "rule": "replay of saved inputs only", "samples": [open(ctx.replay).read()]}, HIST_ASSUMPTIONS)
+        return
+    work = os.path.join(VERIF, ".work", "C11-%d" % os.getpid())
+    os.makedirs(work, exist_ok=True)
+    jobs = []
+    for name, b in sorted(bins.items()):
+        for v in range(8):
+            base = os.path.join(work, "m-%s-%d" % (name, v))
+            jobs.append((("matrix", name, v, 0), [b, "bmatrix", "--world", "WMix", "--variant", str(v), "--pairs", "64", "--out", base + ".json", "--fail-out", base + ".nest"]))
+        shards, cases = (4, 5000) if ctx.tier == "quick" else (8, 400000)
+        for s in range(shards):
+            base = os.path.join(work, "s-%s-%d" % (name, s))
+            seed = ctx.sub_seed("bsearch", name, s)
+            world = "WOne" if s % 4 == 3 else "WMix"
+            jobs.append((("search", name, s, seed), [b, "bsearch", "--world", world, "--cases", str(cases), "--seed", str(seed), "--out", base + ".json", "--fail-out", base + ".nest"]))
+    res = run_many(jobs, 3600)
+    combos = conflicts = neighbours = 0
+    rand_cases = 0
+    hashes = set()
+    labels = {}
+    samples = []
+    try:
+        for key in sorted(res):
+            kind, name, idx, seed = key
+            rc, out = res[key]
+            base = os.path.join(work, ("m-%s-%d" if kind == "matrix" else "s-%s-%d") % (name, idx))
+            if rc is None:
+                raise Inconclusive("C11 job timed out")
+            if rc not in (0, 1):
+                raise Inconclusive("C11 job died with status %s: %s" % (rc, out[-300:]))
+            if os.path.exists(base + ".json"):
+                st = json.load(open(base + ".json"))
+                if kind == "matrix":
+                    combos += st["combos"]
+                    conflicts += st["conflicts"]
+                    neighbours += st["neighbours"]
+                    if len(samples) < 4:
+                        samples.extend(st["samples"][:2])
+                else:
+                    rand_cases += st["evaluations"]
+                    hashes.update(st["nontrivial_hashes"])
+                    for k, v in st["labels"].items():
+                        labels[k] = labels.get(k, 0) + v
+                    if len(samples) < 6:
+                        samples.extend(st["samples"][:1])
+            if rc == 1:
+                for line in out.splitlines():
+                    if line.startswith("FAIL "):
+                        d = parse_line(line)
+                        dst = os.path.join(found_dir("C11"), "%s-%s-%s-%d.nest" % (d.get("sig", "fail"), kind, name, idx))
+                        shutil.copyfile(base + ".nest", dst)
+                        report_failure(ctx, d.get("sig", "?"), dst, "[%s] %s" % (name, d.get("msg", "")))
+    finally:
+        shutil.rmtree(work, ignore_errors=True)
+    cov = {
+        "evaluations": combos + rand_cases,
+        "distinct_nontrivial": conflicts + neighbours + len(hashes),
+        "rule": C11_RULE,
+        "samples": samples,
+        "exhaustive": False,
+        "pair_matrix": {"exhaustive": True, "combinations_run": combos, "must_panic": conflicts, "closest_non_conflicting": neighbours, "populations": 8, "builds": sorted(bins.keys()),
+                        "note": "the pair matrix sub-space is enumerated completely (exhaustive: true for it); the random nestings are sampled"},
+        "random_sequences": rand_cases,
+        "random_labels": labels,
+        "builds": sorted(bins.keys()),
+        "regression_replays": len(files),
+    }
+    write_evidence(ctx, "exploration", cov, ["model of one RefCell per (archetype, column) in harness/src/borrowm.rs", "panic message of a refused borrow contains 'borrowed' (std RefCell)", "proptest, rustc"])
+
+
 def check_c17(ctx):
     check_history(ctx, features=("events",))
 
 
-HANDLERS = {"C17": check_c17, "C14": check_c14, "C03": check_c03, "C10": check_c10}
+HANDLERS = {"C17": check_c17, "C14": check_c14, "C03": check_c03, "C10": check_c10, "C11": check_c11}
 for _p in ("C01", "C02", "C04", "C06", "C07", "C08", "C09", "C12", "C13"):
     HANDLERS[_p] = check_history
